@@ -1,4 +1,4 @@
-B = 'arbitrary table state of <= 3 outstanding blocks at arbitrary distinct addresses inside a 256-byte arena (bucket placement and collisions chosen by the solver, 4 buckets via the CPPUTEST_VERIF_HASH_TABLE_SIZE hook (73 in production; the code is uniform in the count)), arbitrary periods/stages; one operation with symbolic argument'
+B = 'arbitrary table state of <= 3 outstanding blocks at arbitrary distinct addresses inside a 32-byte arena (bucket placement and collisions chosen by the solver, 4 buckets via the CPPUTEST_VERIF_HASH_TABLE_SIZE hook (73 in production; the code is uniform in the count)), arbitrary periods/stages; one operation with symbolic argument'
 SPEC = {
     'property': 'C04',
     'functions_of_interest': ['MemoryLeakDetectorTable', 'MemoryLeakDetectorList', 'MemoryLeakDetectorNode', 'MemoryLeakDetector'],
@@ -8,7 +8,8 @@ SPEC = {
         'obligations': [
             {'fn': 'harness_remove', 'unwind': 6, 'timeout': 900, 'bounds': B + ': removeNode(address in the arena)'},
             {'fn': 'harness_totals', 'unwind': 6, 'timeout': 900, 'bounds': B + ': getTotalLeaks(period)'},
-            {'fn': 'harness_clear', 'unwind': 6, 'timeout': 900, 'bounds': B + ': clearAllAccounting(period)'},
+            {'fn': 'harness_clear', 'unwind': 6, 'timeout': 1800, 'tier': 'thorough', 'bounds': B + ': clearAllAccounting(period)'},
+            {'fn': 'harness_clear', 'unwind': 6, 'timeout': 900, 'tier': 'quick', 'defines': ['-DNB=2'], 'bounds': B.replace('<= 3', '<= 2') + ': clearAllAccounting(period)'},
             {'fn': 'harness_iterate_period', 'unwind': 6, 'timeout': 900, 'bounds': B + ': getFirstLeak/getNextLeak(period) to the end'},
             {'fn': 'harness_iterate_stage', 'unwind': 6, 'timeout': 900, 'bounds': B + ': getFirstLeakForAllocationStage/getNext... to the end'},
         ],
